@@ -473,6 +473,17 @@ func checkChain(h *Harness, s Schedule) []Violation {
 	if cnt != 8+n {
 		vs = append(vs, Violation{"contract-count", where("count", cnt), fmt.Sprintf("the chain holds %d deployed contracts, expected %d (8 + one Alphabet contract per member)", cnt, 8+n)})
 	}
+	// "deploys exactly once": nothing that was just deployed has been updated (how many transactions designate the
+	// roles is not fixed by the statement: the procedure designates three or four times by design)
+	for id := int32(1); id <= int32(cnt); id++ {
+		hs, err := h.bc.GetContractScriptHash(id)
+		if err != nil {
+			break
+		}
+		if cs := h.bc.GetContractState(hs); cs != nil && cs.UpdateCounter != 0 {
+			vs = append(vs, Violation{"needless-update", where("contract", cs.Manifest.Name), fmt.Sprintf("contract %s (id %d) was updated %d times during the first deployment", cs.Manifest.Name, id, cs.UpdateCounter)})
+		}
+	}
 	return vs
 }
 
